@@ -8,6 +8,7 @@ import NodisVerif.Driver.ProtoOps
 import NodisVerif.Driver.LinkedListOps
 import NodisVerif.Driver.SlOps
 import NodisVerif.Driver.RespWriterOps
+import NodisVerif.Driver.FloatOps
 import NodisVerif.Model.Feed
 open NodisVerif
 
@@ -55,6 +56,7 @@ def step (d : DState) (line : String) : DState × String :=
     let d := { d with wr := ⟨#[], 0, false, #[]⟩ }
     let (w', out) := Driver.wrOp w rest
     ({ d with wr := w' }, out)
+  | "fmtfloat" :: _ | "parsefloat" :: _ => (d, Driver.floatOp toks)
   | "pev" :: rest => let (p, out) := Driver.protoOp d.proto rest; ({ d with proto := p }, out)
   | "bev" :: rest => let (b, out) := Driver.blockOp d.block rest; ({ d with block := b }, out)
   | "gev" :: rest => let (g, out) := Driver.gateOp d.gate rest; ({ d with gate := g }, out)
